@@ -12,6 +12,7 @@ ProgDef == <<
 Cases == <<
   [root |-> 3, forms |-> "both", lo |-> 1, hi |-> 3, nsubj |-> 1, nbeh |-> 0, nhotc |-> 0, L |-> 3, checks |-> {"C01", "C03"},
    pre |-> <<[k |-> "sub", a |-> 3, b |-> 0, t |-> "", v |-> <<"u">>]>>,
+   threads |-> <<>>,
    alpha |-> <<[k |-> "emit", a |-> 1, b |-> 0, t |-> "N", v |-> <<"i", 0>>],
                [k |-> "emit", a |-> 1, b |-> 0, t |-> "N", v |-> <<"i", 1>>],
                [k |-> "emit", a |-> 1, b |-> 0, t |-> "E", v |-> <<"e", 1>>],
